@@ -312,6 +312,7 @@ public:
         J.attribute("dk", declKind(D));
         J.attribute("declId", declId(D));
         if (ME->isArrow()) J.attribute("arrow", true);
+        if (auto *FD = dyn_cast<FieldDecl>(D)) J.attribute("fi", (int64_t)FD->getFieldIndex());
       } else if (auto *DM = dyn_cast<CXXDependentScopeMemberExpr>(S)) {
         J.attribute("name", DM->getMember().getAsString());
       } else if (auto *UL = dyn_cast<UnresolvedLookupExpr>(S)) {
